@@ -847,7 +847,9 @@ func TestVerifC20(t *testing.T) {
 		}
 	}
 	n := zzverif.EnvInt("VERIF_N", 2000)
-	root := zzverif.NewRng(zzverif.Seed())
+	// NewRng(seed) streams for consecutive seeds are one-step shifts of each other (SplitMix64 state =
+	// seed * increment): fork once so that different seeds give unrelated case sequences.
+	root := zzverif.NewRng(zzverif.Seed()).Fork()
 	for i := 0; i < n; i++ {
 		r := root.Fork()
 		tk := toks[[]int{0, 0, 0, 1, 2, 3, 3, 3}[r.Intn(8)]]
